@@ -63,10 +63,31 @@ func goTyX(e ast.Expr) gty {
 			return gty(x.Name)
 		}
 	case *ast.FuncType:
-		return "func"
+		var ps, rs []string
+		for _, f := range x.Params.List {
+			k := len(f.Names)
+			if k == 0 {
+				k = 1
+			}
+			for i := 0; i < k; i++ {
+				ps = append(ps, string(goTyX(f.Type)))
+			}
+		}
+		if x.Results != nil {
+			for _, f := range x.Results.List {
+				rs = append(rs, string(goTyX(f.Type)))
+			}
+		}
+		return gty("func:" + strings.Join(ps, ",") + "->" + strings.Join(rs, ","))
+	case *ast.StarExpr:
+		if id, ok := x.X.(*ast.Ident); ok && knownStructs[id.Name] != nil {
+			return gty(id.Name) // pointers to structs are objects whose fields are variables
+		}
 	}
 	return goTy(e)
 }
+
+func isFunc(t gty) bool { return strings.HasPrefix(string(t), "func:") }
 
 func leanTyX(t gty) string {
 	s := string(t)
@@ -77,6 +98,14 @@ func leanTyX(t gty) string {
 		return "String"
 	case knownStructs[s] != nil:
 		return s
+	case strings.HasPrefix(s, "func:"):
+		parts := strings.SplitN(s[5:], "->", 2)
+		var out []string
+		for _, p := range strings.Split(parts[0], ",") {
+			out = append(out, leanTyX(gty(p)))
+		}
+		out = append(out, leanTyX(gty(parts[1])))
+		return "(" + strings.Join(out, " → ") + ")"
 	}
 	return leanTy(t)
 }
@@ -113,6 +142,8 @@ type imp struct {
 	tmpN     int
 	fuel     bool
 	sigs     map[string]*isig // translated imp functions
+	objs     map[string]string // object variables (the receiver, locals made with &T{…}): their struct type
+	breakOK  bool              // inside a loop whose result carries an early return
 	callTmp  map[*ast.CallExpr]string
 	idxTmp   map[ast.Node]string
 	idxTy    map[ast.Node]gty
@@ -197,7 +228,9 @@ func (m *imp) fieldVar(f string) string { return m.recv + "_" + f }
 func (m *imp) stateNames() []string {
 	var out []string
 	for _, f := range m.fields {
-		out = append(out, m.fieldVar(f.name))
+		if !isFunc(f.ty) { // function-valued fields are read-only: parameters, not results
+			out = append(out, m.fieldVar(f.name))
+		}
 	}
 	return out
 }
@@ -347,6 +380,13 @@ func (m *imp) expr(e ast.Expr, want gty) (string, gty) {
 		if ty, ok := m.t.env[x.Name]; ok {
 			return m.t.name(x.Name), ty
 		}
+		if c, ok := m.p.consts[x.Name]; ok && strings.HasPrefix(c, "\"") {
+			return c, "str"
+		}
+	case *ast.BasicLit:
+		if x.Kind == token.STRING {
+			return x.Value, "str"
+		}
 	case *ast.SelectorExpr:
 		if id, ok := x.X.(*ast.Ident); ok && id.Name == m.recv {
 			for _, f := range m.fields {
@@ -355,6 +395,13 @@ func (m *imp) expr(e ast.Expr, want gty) (string, gty) {
 				}
 			}
 			panic("translate: receiver field outside the method's state: " + x.Sel.Name)
+		}
+		if id, ok := x.X.(*ast.Ident); ok && m.objs[id.Name] != "" {
+			v := id.Name + "_" + x.Sel.Name
+			if ty, ok := m.t.env[v]; ok {
+				return v, ty
+			}
+			panic("translate: unknown field " + v)
 		}
 		// field of a struct value
 		s, ty := m.expr(x.X, "")
@@ -383,8 +430,22 @@ func (m *imp) expr(e ast.Expr, want gty) (string, gty) {
 		if tmp, ok := m.callTmp[x]; ok {
 			return tmp, m.t.env[tmp]
 		}
+		// a call of a function value (a parameter or a field of function type): pure
+		if fs, fty := m.funcValue(x.Fun); fs != "" {
+			parts := strings.SplitN(string(fty)[5:], "->", 2)
+			ptys := strings.Split(parts[0], ",")
+			args := []string{fs}
+			for i, a := range x.Args {
+				s, _ := m.expr(a, gty(ptys[i]))
+				args = append(args, s)
+			}
+			return "(" + strings.Join(args, " ") + ")", gty(parts[1])
+		}
 		fn := exprText(m.p.fset, x.Fun)
 		switch fn {
+		case "bits.Len64":
+			a, _ := m.expr(x.Args[0], "u64")
+			return "(Go.len64 " + a + ")", "i64"
 		case "len":
 			s, ty := m.expr(x.Args[0], "")
 			if !strings.HasPrefix(string(ty), "[]") {
@@ -447,6 +508,33 @@ func (m *imp) expr(e ast.Expr, want gty) (string, gty) {
 	panic(fmt.Sprintf("translate(imp): unsupported expression %T: %s", e, exprText(m.p.fset, e)))
 }
 
+// the variable holding a function value, if e denotes one
+func (m *imp) funcValue(e ast.Expr) (string, gty) {
+	switch x := e.(type) {
+	case *ast.Ident:
+		if ty, ok := m.t.env[x.Name]; ok && isFunc(ty) {
+			return x.Name, ty
+		}
+	case *ast.SelectorExpr:
+		if id, ok := x.X.(*ast.Ident); ok {
+			if id.Name == m.recv {
+				for _, f := range m.fields {
+					if f.name == x.Sel.Name && isFunc(f.ty) {
+						return m.fieldVar(f.name), f.ty
+					}
+				}
+			}
+			if m.objs[id.Name] != "" {
+				v := id.Name + "_" + x.Sel.Name
+				if ty, ok := m.t.env[v]; ok && isFunc(ty) {
+					return v, ty
+				}
+			}
+		}
+	}
+	return "", ""
+}
+
 func (m *imp) zero(ty gty) string {
 	s := string(ty)
 	switch {
@@ -462,6 +550,24 @@ func (m *imp) zero(ty gty) string {
 
 func (m *imp) binary(x *ast.BinaryExpr, want gty) (string, gty) {
 	switch x.Op {
+	case token.SHL, token.SHR:
+		a, ty := m.expr(x.X, want)
+		if ty == "" {
+			if want == "" {
+				panic("translate: shift of an untyped constant without context: " + exprText(m.p.fset, x))
+			}
+			ty = want
+			a, _ = m.expr(x.X, want)
+		}
+		n, nty := m.expr(x.Y, "u64")
+		if nty != "u64" {
+			n = m.t.convert(n, nty, "u64")
+		}
+		if ty != "u64" {
+			panic("translate(imp): shift of type " + string(ty))
+		}
+		fn := map[token.Token]string{token.SHL: "shl", token.SHR: "shr"}[x.Op]
+		return "(Go." + fn + "64 " + a + " " + n + ")", ty
 	case token.LAND, token.LOR:
 		a, _ := m.expr(x.X, "bool")
 		b, _ := m.expr(x.Y, "bool")
@@ -487,6 +593,11 @@ func (m *imp) binary(x *ast.BinaryExpr, want gty) (string, gty) {
 	switch x.Op {
 	case token.ADD, token.SUB, token.MUL:
 		return "(" + a + " " + x.Op.String() + " " + b + ")", ty
+	case token.QUO:
+		if ty != "u64" {
+			panic("translate(imp): division of type " + string(ty)) // (signed division truncates towards zero in Go)
+		}
+		return "(" + a + " / " + b + ")", ty
 	case token.AND:
 		return "(" + a + " &&& " + b + ")", ty
 	case token.OR:
@@ -555,11 +666,18 @@ func (m *imp) cond(e ast.Expr) (code string, pure bool) {
 // ---- statements
 
 type ictx struct {
-	tail func() string // what follows the last statement of the list
+	tail   func() string            // what follows the last statement of the list
+	brk    func() string            // `break` (inside a loop)
+	retRaw func(tuple string) string // how a return of the function's result tuple leaves (inside a loop: through its result)
 }
 
-func (m *imp) ret(vals []string) string {
+func (c ictx) withTail(tail func() string) ictx { return ictx{tail, c.brk, c.retRaw} }
+
+func (m *imp) ret(c ictx, vals []string) string {
 	all := append(append([]string{}, vals...), m.stateNames()...)
+	if c.retRaw != nil {
+		return c.retRaw(tupleOf(all))
+	}
 	return "pure " + tupleOf(all)
 }
 
@@ -576,6 +694,8 @@ func (m *imp) assigned(list []ast.Stmt) []string {
 		case *ast.SelectorExpr:
 			if id, ok := x.X.(*ast.Ident); ok && id.Name == m.recv {
 				seen[m.fieldVar(x.Sel.Name)] = true
+			} else if id, ok := x.X.(*ast.Ident); ok && m.objs[id.Name] != "" {
+				seen[id.Name+"_"+x.Sel.Name] = true
 			} else {
 				note(x.X)
 			}
@@ -600,7 +720,20 @@ func (m *imp) assigned(list []ast.Stmt) []string {
 						if k := m.p.resolveMethod(m.recvTy, sel.Sel.Name); k != "" {
 							if sg := m.sigs[k]; sg != nil {
 								for _, f := range sg.fields {
-									seen[m.fieldVar(f.name)] = true
+									if !isFunc(f.ty) {
+										seen[m.fieldVar(f.name)] = true
+									}
+								}
+							}
+						}
+					}
+					if id, ok := sel.X.(*ast.Ident); ok && m.objs[id.Name] != "" {
+						if k := m.p.resolveMethod(m.objs[id.Name], sel.Sel.Name); k != "" {
+							if sg := m.sigs[k]; sg != nil {
+								for _, f := range sg.fields {
+									if !isFunc(f.ty) {
+										seen[id.Name+"_"+f.name] = true
+									}
 								}
 							}
 						}
@@ -648,6 +781,8 @@ func returns(list []ast.Stmt) bool {
 	switch s := list[len(list)-1].(type) {
 	case *ast.ReturnStmt:
 		return true
+	case *ast.BranchStmt:
+		return s.Tok == token.BREAK
 	case *ast.ExprStmt:
 		if c, ok := s.X.(*ast.CallExpr); ok {
 			if id, ok := c.Fun.(*ast.Ident); ok && id.Name == "panic" {
@@ -667,6 +802,42 @@ func returns(list []ast.Stmt) bool {
 	return false
 }
 
+// do the statements contain a `return`, or a `break` of the enclosing loop?
+func escapes(list []ast.Stmt) bool {
+	found := false
+	var walk func(n ast.Node, inLoop bool)
+	walk = func(n ast.Node, inLoop bool) {
+		if n == nil || found {
+			return
+		}
+		ast.Inspect(n, func(x ast.Node) bool {
+			switch y := x.(type) {
+			case *ast.ReturnStmt:
+				found = true
+			case *ast.BranchStmt:
+				if y.Tok == token.BREAK && !inLoop {
+					found = true
+				}
+			case *ast.ForStmt:
+				if !inLoop {
+					walk(y.Body, true)
+					return false
+				}
+			case *ast.RangeStmt:
+				if !inLoop {
+					walk(y.Body, true)
+					return false
+				}
+			}
+			return !found
+		})
+	}
+	for _, st := range list {
+		walk(st, false)
+	}
+	return found
+}
+
 func (m *imp) bindTuple(vars []string, val string, rest string) string {
 	switch len(vars) {
 	case 0:
@@ -678,6 +849,9 @@ func (m *imp) bindTuple(vars []string, val string, rest string) string {
 	var b strings.Builder
 	fmt.Fprintf(&b, "%s >>= fun %s =>\n  ", val, tmp)
 	for i, v := range vars {
+		if v == "_" {
+			continue
+		}
 		fmt.Fprintf(&b, "let %s : %s := %s\n  ", v, leanTyX(m.varTy(v)), projOf(tmp, i, len(vars)))
 	}
 	return b.String() + rest
@@ -708,7 +882,7 @@ func (m *imp) block(list []ast.Stmt, c ictx) string {
 			}
 			vals = append(vals, e)
 		}
-		return withPre(pre, m.ret(vals))
+		return withPre(pre, m.ret(c, vals))
 	case *ast.DeclStmt:
 		gd := s.Decl.(*ast.GenDecl)
 		var lets []string
@@ -769,6 +943,7 @@ func (m *imp) block(list []ast.Stmt, c ictx) string {
 		if s.Init != nil {
 			panic("translate(imp): if with init")
 		}
+		condPre := m.hoistCalls(s.Cond)
 		cd, pure := m.cond(s.Cond)
 		var elseList []ast.Stmt
 		if s.Else != nil {
@@ -779,44 +954,60 @@ func (m *imp) block(list []ast.Stmt, c ictx) string {
 			}
 		}
 		head := func(thenS, elseS string) string {
+			pfx := ""
+			if len(condPre) > 0 {
+				pfx = strings.Join(condPre, "\n  ") + "\n  "
+			}
 			if pure {
-				return fmt.Sprintf("if %s then\n    %s\n  else\n    %s", cd, indent(thenS), indent(elseS))
+				return pfx + fmt.Sprintf("if %s then\n    %s\n  else\n    %s", cd, indent(thenS), indent(elseS))
 			}
 			cv := m.fresh("c")
-			return fmt.Sprintf("%s >>= fun %s =>\n  if %s then\n    %s\n  else\n    %s", cd, cv, cv, indent(thenS), indent(elseS))
+			return pfx + fmt.Sprintf("%s >>= fun %s =>\n  if %s then\n    %s\n  else\n    %s", cd, cv, cv, indent(thenS), indent(elseS))
 		}
 		thenRet, elseRet := returns(s.Body.List), returns(elseList)
 		saved := m.t.snapshot()
 		switch {
 		case thenRet && elseRet:
-			th := m.block(s.Body.List, ictx{nil})
+			th := m.block(s.Body.List, c.withTail(nil))
 			m.t.restore(saved)
-			el := m.block(elseList, ictx{nil})
+			el := m.block(elseList, c.withTail(nil))
 			m.t.restore(saved)
 			return head(th, el)
 		case thenRet:
-			th := m.block(s.Body.List, ictx{nil})
+			th := m.block(s.Body.List, c.withTail(nil))
 			m.t.restore(saved)
-			el := m.block(elseList, ictx{rest})
+			el := m.block(elseList, c.withTail(rest))
 			return head(th, el)
 		case elseRet:
-			el := m.block(elseList, ictx{nil})
+			el := m.block(elseList, c.withTail(nil))
 			m.t.restore(saved)
-			th := m.block(s.Body.List, ictx{rest})
+			th := m.block(s.Body.List, c.withTail(rest))
+			return head(th, el)
+		}
+		if escapes(s.Body.List) || escapes(elseList) {
+			// a branch may leave the loop or the function, or fall through: the rest follows in both branches
+			th := m.block(s.Body.List, c.withTail(rest))
+			m.t.restore(saved)
+			el := m.block(elseList, c.withTail(rest))
+			m.t.restore(saved)
 			return head(th, el)
 		}
 		// both branches fall through: the assigned variables as one conditional value
 		vars := m.assigned([]ast.Stmt{s})
 		tail := func() string { return "pure " + tupleOf(vars) }
-		th := m.block(s.Body.List, ictx{tail})
+		th := m.block(s.Body.List, c.withTail(tail))
 		m.t.restore(saved)
-		el := m.block(elseList, ictx{tail})
+		el := m.block(elseList, c.withTail(tail))
 		m.t.restore(saved)
 		return m.bindTuple(vars, "("+head(th, el)+")", rest())
+	case *ast.BranchStmt:
+		if s.Tok == token.BREAK && c.brk != nil {
+			return c.brk()
+		}
 	case *ast.ForStmt:
-		return m.loop(s, nil, rest)
+		return m.loop(s, nil, rest, c)
 	case *ast.RangeStmt:
-		return m.loop(nil, s, rest)
+		return m.loop(nil, s, rest, c)
 	}
 	panic(fmt.Sprintf("translate(imp): unsupported statement %T at %s", list[0], m.p.fset.Position(list[0].Pos())))
 }
@@ -840,6 +1031,30 @@ func (m *imp) assign(lhs ast.Expr, rhs ast.Expr, tok token.Token, rest func() st
 	}
 	switch x := lhs.(type) {
 	case *ast.Ident:
+		// m := &T{f: e, …}: an object; its fields are variables m_f
+		if u, ok := rhs.(*ast.UnaryExpr); ok && u.Op == token.AND {
+			if cl, ok := u.X.(*ast.CompositeLit); ok {
+				if id, ok := cl.Type.(*ast.Ident); ok && knownStructs[id.Name] != nil && tok == token.DEFINE {
+					given := map[string]ast.Expr{}
+					for _, el := range cl.Elts {
+						kv := el.(*ast.KeyValueExpr)
+						given[kv.Key.(*ast.Ident).Name] = kv.Value
+					}
+					var lets []string
+					for _, f := range structFields(id.Name) {
+						v := x.Name + "_" + f.name
+						val := m.zero(f.ty)
+						if ge, ok := given[f.name]; ok {
+							val, _ = m.expr(ge, f.ty)
+						}
+						m.t.env[v] = f.ty
+						lets = append(lets, fmt.Sprintf("let %s : %s := %s", v, leanTyX(f.ty), val))
+					}
+					m.objs[x.Name] = id.Name
+					return join(strings.Join(lets, "\n  ") + "\n  " + rest())
+				}
+			}
+		}
 		e, ty := m.expr(rhs, m.t.env[x.Name])
 		if ty == "" {
 			panic("translate: cannot type " + exprText(m.p.fset, rhs))
@@ -853,6 +1068,15 @@ func (m *imp) assign(lhs ast.Expr, rhs ast.Expr, tok token.Token, rest func() st
 		if id, ok := x.X.(*ast.Ident); ok && id.Name == m.recv {
 			v := m.fieldVar(x.Sel.Name)
 			ty := m.varTy(v)
+			e, ety := m.expr(rhs, ty)
+			if ety != ty {
+				panic("translate: field assignment of another type: " + v)
+			}
+			return join(fmt.Sprintf("let %s : %s := %s\n  %s", v, leanTyX(ty), e, rest()))
+		}
+		if id, ok := x.X.(*ast.Ident); ok && m.objs[id.Name] != "" {
+			v := id.Name + "_" + x.Sel.Name
+			ty := m.t.env[v]
 			e, ety := m.expr(rhs, ty)
 			if ety != ty {
 				panic("translate: field assignment of another type: " + v)
@@ -917,7 +1141,7 @@ func (m *imp) methodCall(call *ast.CallExpr, resultNames []string) (string, []st
 		return "", nil, false
 	}
 	id, ok := sel.X.(*ast.Ident)
-	if !ok || id.Name != m.recv {
+	if !ok || (id.Name != m.recv && m.objs[id.Name] == "") {
 		// recv.field.method(): a pure-mode method on a struct-valued field (s.ctx.rand())
 		if inner, ok := sel.X.(*ast.SelectorExpr); ok {
 			if id2, ok := inner.X.(*ast.Ident); ok && id2.Name == m.recv {
@@ -926,14 +1150,21 @@ func (m *imp) methodCall(call *ast.CallExpr, resultNames []string) (string, []st
 		}
 		return "", nil, false
 	}
-	key := m.p.resolveMethod(m.recvTy, sel.Sel.Name)
+	objTy := m.recvTy
+	fieldVar := m.fieldVar
+	if id.Name != m.recv {
+		objTy = m.objs[id.Name]
+		obj := id.Name
+		fieldVar = func(f string) string { return obj + "_" + f }
+	}
+	key := m.p.resolveMethod(objTy, sel.Sel.Name)
 	sg := m.sigs[key]
 	if sg == nil {
 		return "", nil, false
 	}
 	var args []string
 	for _, f := range sg.fields {
-		args = append(args, m.fieldVar(f.name))
+		args = append(args, fieldVar(f.name))
 	}
 	var pre []string
 	for i, a := range call.Args {
@@ -962,7 +1193,9 @@ func (m *imp) methodCall(call *ast.CallExpr, resultNames []string) (string, []st
 		}
 	}
 	for _, f := range sg.fields {
-		names = append(names, m.fieldVar(f.name))
+		if !isFunc(f.ty) {
+			names = append(names, fieldVar(f.name))
+		}
 	}
 	code := "(" + sg.lean + " " + strings.Join(args, " ") + ")"
 	if len(pre) > 0 {
@@ -1004,7 +1237,7 @@ func (m *imp) fieldMethodCall(field, method string, call *ast.CallExpr, resultNa
 }
 
 // loops: a recursive definition with fuel over the variables the loop assigns
-func (m *imp) loop(f *ast.ForStmt, r *ast.RangeStmt, rest func() string) string {
+func (m *imp) loop(f *ast.ForStmt, r *ast.RangeStmt, rest func() string, outer ictx) string {
 	m.loopN++
 	m.fuel = true
 	name := fmt.Sprintf("%s_loop%d", strings.ReplaceAll(m.key, ".", "_"), m.loopN)
@@ -1064,6 +1297,9 @@ func (m *imp) loop(f *ast.ForStmt, r *ast.RangeStmt, rest func() string) string 
 	if post != nil {
 		stmts = append(stmts, post)
 	}
+	if condE != nil {
+		stmts = append(stmts, &ast.ExprStmt{X: condE}) // a method call in the condition changes state too
+	}
 	mut := m.assigned(stmts)
 	if hidden != "" {
 		mut = append(mut, hidden)
@@ -1095,6 +1331,14 @@ func (m *imp) loop(f *ast.ForStmt, r *ast.RangeStmt, rest func() string) string 
 					}
 					return false
 				}
+				if id, ok := y.X.(*ast.Ident); ok && m.objs[id.Name] != "" {
+					if v := id.Name + "_" + y.Sel.Name; !isMut[v] {
+						if _, ok := m.t.env[v]; ok {
+							free[v] = true
+						}
+					}
+					return false
+				}
 			case *ast.CallExpr:
 				if sel, ok := y.Fun.(*ast.SelectorExpr); ok {
 					if id, ok := sel.X.(*ast.Ident); ok && id.Name == m.recv {
@@ -1102,6 +1346,17 @@ func (m *imp) loop(f *ast.ForStmt, r *ast.RangeStmt, rest func() string) string 
 							if sg := m.sigs[k]; sg != nil {
 								for _, fl := range sg.fields {
 									if v := m.fieldVar(fl.name); !isMut[v] {
+										free[v] = true
+									}
+								}
+							}
+						}
+					}
+					if id, ok := sel.X.(*ast.Ident); ok && m.objs[id.Name] != "" {
+						if k := m.p.resolveMethod(m.objs[id.Name], sel.Sel.Name); k != "" {
+							if sg := m.sigs[k]; sg != nil {
+								for _, fl := range sg.fields {
+									if v := id.Name + "_" + fl.name; !isMut[v] {
 										free[v] = true
 									}
 								}
@@ -1135,11 +1390,33 @@ func (m *imp) loop(f *ast.ForStmt, r *ast.RangeStmt, rest func() string) string 
 	for _, v := range mut {
 		mtys = append(mtys, leanTyX(m.varTy(v)))
 	}
+	// does the body return from the function (at any depth)?
+	hasReturn := false
+	for _, st := range body {
+		ast.Inspect(st, func(n ast.Node) bool {
+			if _, ok := n.(*ast.ReturnStmt); ok {
+				hasReturn = true
+			}
+			return true
+		})
+	}
+	var retTys []gty
+	retTys = append(retTys, m.results...)
+	for _, fl := range m.fields {
+		if !isFunc(fl.ty) {
+			retTys = append(retTys, fl.ty)
+		}
+	}
 	again := fmt.Sprintf("%s %s fuel %s", name, strings.Join(fv, " "), strings.Join(mut, " "))
 	exit := "pure " + tupleOf(mut)
+	if hasReturn {
+		exit = "pure (" + tupleOf(mut) + ", none)"
+	}
 	var cd string
 	pureC := true
+	var loopCondPre []string
 	if condE != nil {
+		loopCondPre = m.hoistCalls(condE)
 		cd, pureC = m.cond(condE)
 	} else if bound != "" {
 		cd = fmt.Sprintf("(decide (%s < %s))", hidden, bound)
@@ -1149,35 +1426,46 @@ func (m *imp) loop(f *ast.ForStmt, r *ast.RangeStmt, rest func() string) string 
 	tail := func() string {
 		s := again
 		if post != nil {
-			s = m.block([]ast.Stmt{post}, ictx{func() string { return again }})
+			s = m.block([]ast.Stmt{post}, ictx{tail: func() string { return again }})
 		} else if hidden != "" {
 			s = fmt.Sprintf("let %s : Int64 := (%s + (1 : Int64))\n  %s", hidden, hidden, again)
 		}
 		return s
 	}
+	bctx := ictx{tail: tail, brk: func() string { return exit }}
+	if hasReturn {
+		bctx.retRaw = func(tuple string) string { return "pure (" + tupleOf(mut) + ", some " + tuple + ")" }
+	}
 	var bodyS string
 	if valueVar != "" {
 		xs, xty := m.expr(rangeX, "")
 		m.t.env[valueVar] = gty(string(xty)[2:])
-		bodyS = fmt.Sprintf("(Go.idx %s %s) >>= fun %s =>\n  %s", xs, hidden, valueVar, m.block(body, ictx{tail}))
+		bodyS = fmt.Sprintf("(Go.idx %s %s) >>= fun %s =>\n  %s", xs, hidden, valueVar, m.block(body, bctx))
 	} else {
-		bodyS = m.block(body, ictx{tail})
+		bodyS = m.block(body, bctx)
 	}
 	var stepS string
-	if pureC {
+	if len(loopCondPre) > 0 {
+		// the state after the call in the condition is the state the loop leaves with
+		stepS = fmt.Sprintf("%s\n    if %s then\n      %s\n    else\n      %s", strings.Join(loopCondPre, "\n    "), cd, indent(indent(bodyS)), exit)
+	} else if pureC {
 		stepS = fmt.Sprintf("if %s then\n      %s\n    else\n      %s", cd, indent(indent(bodyS)), exit)
 	} else {
 		stepS = fmt.Sprintf("%s >>= fun c_ =>\n    if c_ then\n      %s\n    else\n      %s", cd, indent(indent(bodyS)), exit)
 	}
 	pats := strings.Join(mut, ", ")
 	under := strings.Repeat(", _", len(mut))
+	resTy := strings.Join(mtys, " × ")
+	if hasReturn {
+		resTy = "(" + resTy + ") × Option (" + tupleTyX(retTys) + ")"
+	}
 	m.aux = append(m.aux, fmt.Sprintf("/-- loop #%d of %s (%s); `fuel` bounds the number of iterations -/\ndef %s %s : Nat → %s → Go.M (%s)\n  | 0%s => .error .fuel\n  | fuel+1, %s =>\n    %s\n",
 		m.loopN, m.key, m.p.fset.Position(func() token.Pos {
 			if f != nil {
 				return f.Pos()
 			}
 			return r.Pos()
-		}()), name, strings.Join(params, " "), strings.Join(mtys, " → "), strings.Join(mtys, " × "), under, pats, stepS))
+		}()), name, strings.Join(params, " "), strings.Join(mtys, " → "), resTy, under, pats, stepS))
 	mutTy := map[string]gty{}
 	for _, v := range mut {
 		mutTy[v] = m.varTy(v)
@@ -1188,20 +1476,32 @@ func (m *imp) loop(f *ast.ForStmt, r *ast.RangeStmt, rest func() string) string 
 	tmp := m.fresh("t")
 	var b strings.Builder
 	fmt.Fprintf(&b, "%s%s >>= fun %s =>\n  ", pre, call, tmp)
+	base := tmp
+	if hasReturn {
+		base = tmp + ".1"
+	}
 	for i, v := range mut {
-		_, outer := saved[v]
+		_, isOuter := saved[v]
 		if loopLocal[v] {
 			continue
 		}
-		if outer || (m.recv != "" && strings.HasPrefix(v, m.recv+"_")) {
-			proj := tmp
+		if isOuter || (m.recv != "" && strings.HasPrefix(v, m.recv+"_")) {
+			proj := base
 			if len(mut) > 1 {
-				proj = projOf(tmp, i, len(mut))
+				proj = projOf(base, i, len(mut))
 			}
 			fmt.Fprintf(&b, "let %s : %s := %s\n  ", v, leanTyX(mutTy[v]), proj)
 		}
 	}
-	return b.String() + rest()
+	if !hasReturn {
+		return b.String() + rest()
+	}
+	// the loop may have returned from the function
+	leave := "pure r_"
+	if outer.retRaw != nil {
+		leave = outer.retRaw("r_")
+	}
+	return fmt.Sprintf("%smatch %s.2 with\n  | some r_ => %s\n  | none =>\n    %s", b.String(), tmp, leave, indent(rest()))
 }
 
 // impFunction translates a method (or function) in the imperative subset
@@ -1211,7 +1511,7 @@ func (t *trans) impFunction(key string, sigs map[string]*isig) string {
 		panic("translate: no function " + key)
 	}
 	fxMode = false
-	m := &imp{t: t, p: t.p, key: key, sigs: sigs, callTmp: map[*ast.CallExpr]string{}, idxTmp: map[ast.Node]string{}, idxTy: map[ast.Node]gty{}, pureSigs: t.pureMethodFields}
+	m := &imp{t: t, p: t.p, key: key, sigs: sigs, objs: map[string]string{}, callTmp: map[*ast.CallExpr]string{}, idxTmp: map[ast.Node]string{}, idxTy: map[ast.Node]gty{}, pureSigs: t.pureMethodFields}
 	t.env = map[string]gty{}
 	t.fields = map[string]gty{}
 	t.recv = ""
@@ -1258,13 +1558,15 @@ func (t *trans) impFunction(key string, sigs map[string]*isig) string {
 		}
 	}
 	m.results = sg.results
-	body := m.block(d.Body.List, ictx{func() string { return m.ret(nil) }})
+	body := m.block(d.Body.List, ictx{tail: func() string { return m.ret(ictx{}, nil) }})
 	sg.fuel = m.fuel
 	sigs[key] = sg
 	var resTys []gty
 	resTys = append(resTys, sg.results...)
 	for _, f := range m.fields {
-		resTys = append(resTys, f.ty)
+		if !isFunc(f.ty) {
+			resTys = append(resTys, f.ty)
+		}
 	}
 	if sg.fuel {
 		params = append(params, "(fuel : Nat)")
